@@ -281,6 +281,27 @@ pub fn gen_c17(rng: &mut Rng, thorough: bool, emit: &mut dyn FnMut(StreamCase)) 
             }
         }
     }
+    // a writer that is dropped without any write (with and without a flush, and after an empty write_all):
+    // the body must still be coded as the header says
+    for ae in [Some("gzip"), Some("identity"), None, Some("*")] {
+        for level in [0u32, 1, 6, 9] {
+            for cap in [1usize, 7, 4096] {
+                for (sname, ops) in [
+                    ("drop-only", vec![Op::DropWriter, Op::Drain(1), Op::Poll(1)]),
+                    ("flush-drop", vec![Op::Flush, Op::Drain(1), Op::DropWriter, Op::Drain(1), Op::Poll(1)]),
+                    ("empty-write-all-drop", vec![Op::WriteAll(vec![]), Op::DropWriter, Op::Drain(1), Op::Poll(1)]),
+                ] {
+                    for parts in [false, true] {
+                        let mut c = base(cap, ops.clone(), format!("G:c17-nowrite ae={:?} level={} cap={} shape={} parts={}", ae, level, cap, sname, parts));
+                        c.accept_encoding = ae.map(|s| s.as_bytes().to_vec());
+                        c.gz_level = level;
+                        c.use_parts = parts;
+                        emit(c);
+                    }
+                }
+            }
+        }
+    }
     // builder call sequences: an option set more than once (layered configuration), in either order;
     // the calls made last decide
     let pres: Vec<Vec<(u64, u64)>> = vec![
@@ -300,6 +321,32 @@ pub fn gen_c17(rng: &mut Rng, thorough: bool, emit: &mut dyn FnMut(StreamCase)) 
                         c.use_parts = parts;
                         emit(c);
                     }
+                }
+            }
+        }
+    }
+}
+
+/// C15: streaming_body for HEAD mirrors GET: the same requests built with GET and with HEAD
+/// (Accept-Encoding x level x builder call sequences x request representation).
+pub fn gen_c15_twins(emit: &mut dyn FnMut(StreamCase, StreamCase)) {
+    let payload: Vec<u8> = (0..40u32).map(|i| (i % 7) as u8 + b'a').collect();
+    let pres: Vec<Vec<(u64, u64)>> = vec![vec![], vec![(1, 0)], vec![(1, 0), (1, 5)], vec![(0, 3), (1, 9)]];
+    for ae in [None, Some(""), Some("gzip"), Some("identity"), Some("*"), Some("br"), Some("gzip;q=0"), Some("identity;q=0.5, gzip;q=1.0"), Some("gzip;q=0.5, identity;q=0.5"), Some("*;q=0")] {
+        for level in [0u32, 1, 6, 9] {
+            for pre in &pres {
+                for parts in [false, true] {
+                    let mk = |method: &str| {
+                        let ops = vec![Op::WriteAll(payload.clone()), Op::DropWriter, Op::Drain(1), Op::Poll(1)];
+                        let mut c = base(7, ops, format!("T:c15-streaming ae={:?} level={} pre={:?} parts={} {}", ae, level, pre, parts, method));
+                        c.accept_encoding = ae.map(|s| s.as_bytes().to_vec());
+                        c.gz_level = level;
+                        c.pre_calls = pre.clone();
+                        c.method = method.into();
+                        c.use_parts = parts;
+                        c
+                    };
+                    emit(mk("GET"), mk("HEAD"));
                 }
             }
         }
